@@ -193,7 +193,7 @@ def describe_counterexample(eng, ob):
     if m is None:
         return None
     pre = eng.unit_pre
-    out = {'inputs': {}, 'obligation': ob.name}
+    out = {'inputs': {}, 'obligation': ob.name, 'path': ' '.join(ob.st.notes[-40:])}
     for name, v in eng.unit_env.items():
         if name.startswith('__'):
             continue
@@ -220,8 +220,8 @@ def discharge(eng: Engine, ob: Obligation, use_cvc5=True):
     ob.refuted = v.status == 'sat'
 
 
-def verify_target(target, contract_dirs, config=None, root=None) -> UnitResult:
-    """Verify one contracted function in a fresh engine (process-pool friendly)."""
+def verify_target(target, contract_dirs, config=None, root=None, solve=True) -> UnitResult:
+    """Generate (and optionally discharge in-process) the obligations of one contracted function in a fresh engine."""
     t0 = time.time()
     smt.reset_names()
     res = UnitResult(target)
@@ -239,6 +239,7 @@ def verify_target(target, contract_dirs, config=None, root=None) -> UnitResult:
         cfg.update(config or {})
         cfg = resolve_config(index, cfg)
         eng = Engine(index, contracts, cfg)
+        res.engine = eng
         if target not in index.funcs:
             res.status = 'error'
             res.message = f'contract target {target} not found in the source'
@@ -246,13 +247,13 @@ def verify_target(target, contract_dirs, config=None, root=None) -> UnitResult:
         fi = index.funcs[target]
         eng.verify_unit(fi, c)
         res.paths = eng.stats['paths']
-        for ob in eng.obligations:
-            discharge(eng, ob)
         res.obligations = eng.obligations
         res.assumptions = sorted(eng.assumptions_used)
         res.abstractions = sorted(eng.abstractions)
         res.contracts_used = sorted(eng.contracts_used)
-        res.engine = eng
+        if solve:
+            for ob in eng.obligations:
+                discharge(eng, ob)
     except Unsupported as e:
         res.status = 'undecided'
         node = getattr(e, 'node', None)
@@ -265,6 +266,107 @@ def verify_target(target, contract_dirs, config=None, root=None) -> UnitResult:
         res.tb = traceback.format_exc()
     res.seconds = time.time() - t0
     return res
+
+
+def obligation_assertions(eng, ob):
+    asserts = list(eng.global_axioms) + list(ob.pc)
+    if not ob.want_sat:
+        asserts.append(smt.NOT(ob.goal))
+    return asserts
+
+
+def generate_job(job):
+    """pool worker, phase 1: symbolic execution of one unit; obligations exported as SMT-LIB2 text"""
+    target, contract_dirs, root = job
+    r = verify_target(target, contract_dirs, None, root, solve=False)
+    obs = []
+    for i, ob in enumerate(r.obligations):
+        try:
+            text = smt.to_smt2(obligation_assertions(r.engine, ob))
+        except Exception as e:  # noqa
+            text = None
+        obs.append({'unit': target, 'index': i, 'name': ob.name, 'kind': ob.kind, 'detail': ob.detail, 'want_sat': ob.want_sat,
+                    'path': getattr(ob, 'path', ''), 'known_id': getattr(ob, 'known_id', None), 'replay': getattr(ob, 'replay', None),
+                    'expect_refuted': getattr(ob, 'expect_refuted', False), 'smt2': text})
+    return {'target': target, 'status': r.status, 'message': r.message, 'paths': r.paths, 'seconds': round(r.seconds, 2),
+            'obligations': obs, 'assumptions': r.assumptions, 'abstractions': r.abstractions,
+            'contracts_used': r.contracts_used, 'tb': getattr(r, 'tb', '')}
+
+
+def solve_job(ob):
+    """pool worker, phase 2: discharge one exported obligation (z3, then cvc5 on unknown)"""
+    t0 = time.time()
+    text = ob.pop('smt2')
+    try:
+        v = smt.check_sat_text(text)
+        status, backend, reason = v.status, v.backend, v.reason
+    except Exception as e:  # noqa
+        status, backend, reason = 'unknown', 'error', f'{type(e).__name__}: {e}'
+    if ob['want_sat']:
+        ob['status'] = 'proved' if status == 'sat' else ('refuted' if status == 'unsat' else 'unknown')
+    else:
+        ob['status'] = 'proved' if status == 'unsat' else ('refuted' if status == 'sat' else 'unknown')
+    ob['backend'] = backend
+    ob['reason'] = reason
+    ob['seconds'] = round(time.time() - t0, 3)
+    return ob
+
+
+def explain_job(job):
+    """pool worker, phase 3: re-generate a unit and extract counter-models for the refuted obligations"""
+    target, contract_dirs, root, indices = job
+    r = verify_target(target, contract_dirs, None, root, solve=False)
+    out = {}
+    for i in indices:
+        if i >= len(r.obligations):
+            continue
+        ob = r.obligations[i]
+        discharge(r.engine, ob, use_cvc5=False)
+        d = {}
+        if ob.refuted and not ob.want_sat:
+            try:
+                d['counterexample'] = describe_counterexample(r.engine, ob)
+            except Exception as e:  # noqa
+                d['counterexample'] = {'error': f'{type(e).__name__}: {e}'}
+            try:
+                d['model'] = str(ob.verdict.model)[:4000]
+            except Exception:  # noqa
+                pass
+        out[i] = d
+    return target, out
+
+
+def run_units(targets, contract_dirs, root=None, jobs=16, progress=False):
+    """three-phase parallel verification of several units -> list of unit dicts (obligations solved)"""
+    import multiprocessing as mp
+    ctx = mp.get_context('fork')
+    with ctx.Pool(min(jobs, max(1, len(targets)))) as pool:
+        units = pool.map(generate_job, [(t, contract_dirs, root) for t in targets], chunksize=1)
+    flat = [ob for u in units for ob in u['obligations'] if ob.get('smt2')]
+    for u in units:
+        for ob in u['obligations']:
+            if not ob.get('smt2'):
+                ob.update(status='unknown', backend='export', reason='could not export obligation', seconds=0.0)
+    if flat:
+        with ctx.Pool(min(jobs, len(flat))) as pool:
+            solved = pool.map(solve_job, flat, chunksize=1)
+        bykey = {(o['unit'], o['index']): o for o in solved}
+        for u in units:
+            u['obligations'] = [bykey.get((o['unit'], o['index']), o) for o in u['obligations']]
+    todo = []
+    for u in units:
+        idx = [o['index'] for o in u['obligations'] if o['status'] == 'refuted' and not o['want_sat']]
+        if idx:
+            todo.append((u['target'], contract_dirs, root, idx))
+    if todo:
+        with ctx.Pool(min(jobs, len(todo))) as pool:
+            for target, out in pool.map(explain_job, todo, chunksize=1):
+                for u in units:
+                    if u['target'] == target:
+                        for o in u['obligations']:
+                            if o['index'] in out:
+                                o.update(out[o['index']])
+    return units
 
 
 def resolve_config(index, cfg):
@@ -299,35 +401,81 @@ def main(argv):
     ap.add_argument('targets', nargs='*')
     ap.add_argument('--contracts', default='/verif/contracts')
     ap.add_argument('-v', action='store_true')
+    ap.add_argument('--cx', type=int, default=0)
+    ap.add_argument('--jobs', type=int, default=16)
+    ap.add_argument('--dump', default=None)
+    ap.add_argument('--vacuity', action='store_true')
+    ap.add_argument('--only', default=None, help='in-process: solve only obligations whose name contains this')
     a = ap.parse_args(argv)
+    if a.only:
+        for t in a.targets:
+            r = verify_target(t, [a.contracts], solve=False)
+            print(f'== {t}: {r.status} {r.message} gen={r.seconds:.1f}s obligations={len(r.obligations)}')
+            if r.status != 'ok' and hasattr(r, 'tb'):
+                print(r.tb)
+            for ob in r.obligations:
+                if a.only in ob.name:
+                    if a.dump:
+                        k_ = len([x for x in os.listdir(a.dump) if x.endswith('.smt2')]) if os.path.isdir(a.dump) else 0
+                        os.makedirs(a.dump, exist_ok=True)
+                        open(os.path.join(a.dump, f'ob{k_}.smt2'), 'w').write(smt.to_smt2(obligation_assertions(r.engine, ob)))
+                        continue
+                    discharge(r.engine, ob)
+                    tag = 'PROVED' if ob.proved else ('REFUTED' if ob.refuted else 'UNKNOWN')
+                    vac = ''
+                    if a.vacuity and ob.proved:
+                        vv = smt.check_sat(list(r.engine.global_axioms) + list(ob.pc), want_model=False)
+                        vac = f' [path condition: {vv.status}]'
+                    print(f'   {tag} {ob.name} {ob.verdict.seconds:.2f}s {ob.verdict.backend}{vac} {ob.detail[:80]}')
+                    if ob.refuted and not ob.want_sat:
+                        print('      cx:', json.dumps(describe_counterexample(r.engine, ob))[:a.cx or 1500])
+                    if a.v:
+                        for c_ in ob.pc:
+                            print('      pc:', str(c_)[:300].replace('\n', ' '))
+        return 0
     index = SourceIndex()
     contracts = ContractIndex(index, [a.contracts])
-    targets = a.targets or sorted(contracts.by_target)
+    targets = a.targets or sorted(t for t, c in contracts.by_target.items() if not c.assumed)
     rc = 0
-    for t in targets:
-        r = verify_target(t, [a.contracts])
-        print(f'== {t}: {r.status} {r.message} paths={r.paths} {r.seconds:.1f}s')
-        if r.status != 'ok' and a.v and hasattr(r, 'tb'):
-            print(r.tb)
-        for ob in r.obligations:
-            v = ob.verdict
-            tag = 'PROVED' if ob.proved else ('REFUTED' if ob.refuted else 'UNKNOWN')
-            if ob.want_sat:
-                tag = 'COVERED' if ob.proved else ('VACUOUS' if ob.refuted else 'UNKNOWN')
-            if a.v or not ob.proved:
-                print(f'   {tag:8s} {ob.name} [{ob.kind}] {v.backend} {v.seconds:.2f}s {ob.detail[:100]}')
-            if not ob.proved:
+    t0 = time.time()
+    units = run_units(targets, [a.contracts], None, a.jobs)
+    for u in units:
+        print(f"== {u['target']}: {u['status']} {u['message']} paths={u['paths']} gen={u['seconds']}s")
+        if u['status'] != 'ok':
+            rc = 1
+            if a.v:
+                print(u['tb'])
+        shown = set()
+        counts = {}
+        for ob in u['obligations']:
+            tag = {'proved': 'PROVED', 'refuted': 'REFUTED', 'unknown': 'UNKNOWN'}[ob['status']]
+            if ob['want_sat']:
+                tag = {'proved': 'COVERED', 'refuted': 'VACUOUS', 'unknown': 'UNKNOWN'}[ob['status']]
+            if ob['expect_refuted']:
+                tag = 'KNOWN:' + tag
+            counts[tag] = counts.get(tag, 0) + 1
+            if ob['status'] != 'proved' and not ob['expect_refuted']:
                 rc = 1
-                if ob.refuted and not ob.want_sat and hasattr(r, 'engine'):
-                    try:
-                        print('      counterexample:', json.dumps(describe_counterexample(r.engine, ob))[:1500])
-                    except Exception as e:
-                        print('      (counterexample dump failed:', e, ')')
+            key = (ob['name'], tag)
+            if key in shown and not a.v:
+                continue
+            shown.add(key)
+            if a.v or ob['status'] != 'proved':
+                print(f"   {tag:8s} {ob['name']} [{ob['kind']}] {ob['backend']} {ob['seconds']:.2f}s {ob['detail'][:100]}")
+                if ob['backend'] == 'error':
+                    print('      ', ob['reason'][:300])
+                cx = ob.get('counterexample')
+                if cx and a.cx:
+                    print('      counterexample:', json.dumps(cx)[:a.cx])
+                elif cx and cx.get('escaping_exception'):
+                    print('      escaping exception:', cx['escaping_exception'])
+        print('   ', counts)
         if a.v:
-            for x in r.assumptions:
+            for x in u['assumptions']:
                 print('   assume:', x)
-            for x in r.abstractions:
+            for x in u['abstractions']:
                 print('   abstract:', x)
+    print(f'total {time.time() - t0:.1f}s')
     return rc
 
 
